@@ -26,6 +26,23 @@ def _built(draw):
 
 
 @st.composite
+def _kay(draw):
+    """dividend = a contract whose guarantee mentions all outputs of the divisor at once; divisor = producer with coupled rows"""
+    pr = draw(gens.kaykobad_pair_s())
+    p, q, w = pr["c1"], pr["c2"], pr["witness"]
+    if draw(st.booleans()):
+        # the dividend produces the divisor's outputs from an input of its own: the quotient has to produce the divisor's inputs
+        term = [dict(q["g"][0][0]), q["g"][0][1]]
+        c = {"a": [[{"z": 1.0}, float(w["z"] + 3)]] if draw(st.booleans()) else [], "g": [term], "i": ["z"], "o": list(p["o"])}
+    else:
+        # the dividend sees the divisor's inputs as inputs and produces the divisor's outputs and z
+        c = {"a": [list(t) for t in p["a"]], "g": [list(t) for t in q["g"]] + ([list(t) for t in p["g"]] if draw(st.integers(0, 2)) == 0 else []),
+             "i": list(p["i"]), "o": list(p["o"]) + ["z"]}
+    return {"mode": "free", "c": c, "c1": p, "rel": "kaykobad", "addl_pick": draw(st.lists(st.booleans(), min_size=6, max_size=6)),
+            "simplify": draw(st.sampled_from([True, True, False])), "order": draw(st.sampled_from([None, None, [1], [1, 2, 3, 4, 5], [3, 1]]))}
+
+
+@st.composite
 def _free(draw):
     i1 = ["a", "b"][:draw(st.integers(1, 2))]
     o1 = ["m", "n"][:draw(st.integers(1, 2))]
@@ -55,7 +72,7 @@ def _free(draw):
 
 
 def strategy(tier):
-    return st.one_of(_built(), _free(), _free())
+    return st.one_of(_built(), _built(), _built(), _free(), _free(), _free(), _free(), _kay())
 
 
 def run_case(case):
